@@ -43,20 +43,26 @@ KF_ENTER_Z = "entering_move_has_z"
 KF_SYNTH_E_REL = "synth_e_while_e_relative"
 
 
-def scen(w, template="enter,off,moves,on,moves", kinds="r"):
+def scen(w, template="enter,off,moves,on,moves", kinds="r", late_region=0):
     names = template.split(",")
     # through the real plugin hooks (handleGcodeQueuing / handleAtCommandQueuing), print active
     at_cfg = list(pu.DEFAULT_AT) + [{"command": c, "parameterPattern": p, "action": a, "description": ""}
                                     for c, p, a in CUSTOM_ACTIONS]
     plugin = pu.make_plugin(w, at=at_cfg)
-    plugin.on_event(pu.events(w).PRINT_STARTED, None)
+    pu.fire(plugin, "PRINT_STARTED")
     pipe = pl.Pipe(w, plugin=plugin)
     kind = "rect" if (kinds == "r" or w.choose(2, "rkind") == 0) else "disc"
-    pipe.add_region(pl.fresh_region(w, kind, "r0"))
+    spec0 = pl.fresh_region(w, kind, "r0")
+    late = w.choose(len(names), "region-added-before-step") if late_region else 0
+    if late == 0:
+        pipe.add_region(spec0)
     pipe.prologue()
     V, P = pipe.V, pipe.P
     entered_with_z = False
     for k, an in enumerate(names):
+        if late and k == late:
+            pipe.add_region(spec0)
+            w.cover("region-added-late")
         items = ALPHABET[an]
         item = items[w.choose(len(items), "item")]
         if isinstance(item, str):
@@ -148,14 +154,15 @@ META = {
 def plan(tier):
     out = []
 
-    def add(name, template, kinds="r"):
+    def add(name, template, kinds="r", late=0):
         names = template.split(",")
         SCENARIOS[name] = scen
         cov = []
         for n in set(names):
             for it in ALPHABET[n]:
                 cov.append(("at-" + it) if isinstance(it, str) else ("shape-" + it.tag))
-        out.append(Scenario(name, scen, params={"template": template, "kinds": kinds}, cover=sorted(set(cov)),
+        out.append(Scenario(name, scen, params={"template": template, "kinds": kinds, "late_region": late},
+                            cover=sorted(set(cov)) + (["region-added-late"] if late else []),
                             bounds={"template": names},
                             excludable=[KF_REL_EXIT, KF_ENTER_Z, KF_SYNTH_E_REL]))
     add("mid-episode", "enter,at,any")
@@ -163,6 +170,7 @@ def plan(tier):
     add("off-move-on-move", "off,moves,on,any", "rd")
     add("custom", "enter,at-custom,any")
     add("at-at", "at4,any,at4,any")
+    add("late-region", "off,any,any", late=1)
     if tier == "thorough":
         add("off-moves-on-move", "off,moves,moves,on,any", "rd")
         add("at6-at6", "at,any,at,any")
